@@ -29,6 +29,10 @@ struct Truth {
     cum_ups: usize, downs: usize, cum_eor_ups: usize, eor_downs: usize,
     dropped: usize, eor_dropped: usize,
     invalid: usize, unknown: usize, ann: usize, wd: usize,
+    /// Route Monitoring messages of peers that are up whose UPDATE routecore parses with exactly one of the two
+    /// AS-number widths (the token's `<p4><p2>` field, from the parser alone): the only messages that can have been
+    /// "parsed by not obeying the header flags"
+    one_width: usize,
     touched: bool,
 }
 
@@ -94,6 +98,7 @@ fn run_case(keys: &str, evs: &[(Ev, Option<Built>)], rec: &mut Recorder) -> (Str
         if o.invalid { t.invalid += 1; n_inv += 1; }
         if let Spec::Rm(h, _) = spec { if t.started && !t.terminated && !t.up.contains_key(h) { t.unknown += 1; } }
         if let Down::Routes(_, a, w) = &o.down { t.ann += a; t.wd += w; }
+        if let Spec::Rm(h, _) = spec { if t.started && !t.terminated && t.up.contains_key(h) { let f = built.token.split('.').nth(2).unwrap_or(""); if f == "01" || f == "10" { t.one_width += 1; } } }
         if !violation && !o.invalid {
             match spec {
                 Spec::Init => t.started = true,
@@ -130,6 +135,8 @@ fn run_case(keys: &str, evs: &[(Ev, Option<Built>)], rec: &mut Recorder) -> (Str
                     else { unknown.push(format!("metrics-disagree:state {} phase {}", m.state, o.phase)); }
                 }
                 if m.unprocessable_msgs != t.invalid { unknown.push(format!("metrics-disagree:invalid {} want {}", m.unprocessable_msgs, t.invalid)); }
+                // a message that parses with both widths or with neither was never re-parsed successfully
+                if m.reparsed_updates > t.one_width { unknown.push(format!("metrics-disagree:reparsed {} but only {} message(s) parse with exactly one AS-number width", m.reparsed_updates, t.one_width)); }
                 if m.unknown_peer_msgs != t.unknown { unknown.push(format!("metrics-disagree:unknown_peer {} want {}", m.unknown_peer_msgs, t.unknown)); }
                 if m.announcements != t.ann || m.withdrawals != t.wd || m.received_prefixes != t.ann { unknown.push(format!("metrics-disagree:routes a{} w{} r{} want a{} w{}", m.announcements, m.withdrawals, m.received_prefixes, t.ann, t.wd)); }
                 if let Some(p) = &prev {
